@@ -31,7 +31,8 @@ EMPTYABLE = {b"cl": [b"", b"", b"tests", b"sources"],        # used as <classifi
              b"sfx": [b"", b"", b"-beta", b".1"],             # used as <version>2${sfx}</version>
              b"ety": [b"", b"test-jar", b"jar"],              # <type>${ety}</type>
              b"esc": [b"", b"", b"test", b"runtime"],         # <scope>${esc}</scope>
-             b"egrp": [b"", b"g", b"h"]}                      # <groupId>${egrp}</groupId>
+             b"egrp": [b"", b"g", b"h"],                      # <groupId>${egrp}</groupId>
+             b"dep.isOptional": [b"true", b"false", b"true", b""]}   # <optional>${dep.isOptional}</optional> (a name with capitals)
 NOT_A_VERSION = (b"grp", b"sc") + tuple(EMPTYABLE)
 JDK_SIMPLE = [b"11", b"11.0", b"11.0.8", b"1.8", b"17", b"1.8.0_292", b"21", b"17.0"]
 JDK_SIMPLE_RISKY = [b"11.0.7", b"1", b"1.8.0", b"17.0.1", b"2"]
@@ -136,6 +137,8 @@ class LineageGen:
             elif u < 0.355:
                 d[0] = b"${egrp}"
         d[6] = r.choice([b""] * 8 + [b"true", b"false"])
+        if self.flag("empty_props") and r.random() < 0.08:
+            d[6] = b"${dep.isOptional}"
         if r.random() < 0.25:
             n = r.randrange(1, 3)
             d[7] = [[r.choice(GROUPS + [b"*"]), r.choice(ARTIFACTS + [b"*"])] for _ in range(n)]
